@@ -561,6 +561,26 @@ func init() {
 			pk33 := append(append([]byte{}, pk...), byte(c.Intn(256)))
 			mod("pk33", func(b *bipCase) { b.pk = pk33; b.sig = schnorrWith(d, pk33, k, m, true) })
 		}
+		// a public key that is NOT on the curve, with a signature that needs no secret key once lift_x stops refusing it:
+		// x = 0 (x^3 + 7 = 7 is no square mod p). A "point" (0, y) is 3-torsion under the a = 0 formulas, so for a challenge
+		// e = 0 mod 3 the term e*P vanishes and (r, s) = (x(G), 1) passes s*G - e*P = R with R = G (even y). BIP-340: fail.
+		{
+			pk0 := make([]byte, 32)
+			gx := sgrp.NewBasePoint().(*curve.Secp256k1Point).XBytes()
+			sig := append(append([]byte{}, gx...), be32(big.NewInt(1))...)
+			for tries := 0; tries < 64; tries++ {
+				m := c.Bytes(32)
+				e := new(big.Int).SetBytes(taproot.TaggedHash("BIP0340/challenge", gx, pk0, m))
+				e.Mod(e, secpN)
+				if new(big.Int).Mod(e, big.NewInt(3)).Sign() != 0 {
+					continue
+				}
+				runBipVerify(c, bipCase{pk: pk0, m: m, sig: sig, kind: "offcurve-pk-forgery"})
+				break
+			}
+			// and an off-curve key with an honest-looking signature (made for the even lift the inlined code would pick)
+			runBipVerify(c, bipCase{pk: pk0, m: c.Bytes(32), sig: c.Bytes(64), kind: "offcurve-pk"})
+		}
 		// a 31-byte public-key string: a key whose x coordinate starts with a zero byte
 		for tries := 0; tries < 20000; tries++ {
 			d := c.randScalar()
